@@ -300,7 +300,7 @@ def plan_C02(prop, tier):
     fl = ("NM", "TM", "MO", "TR") if tier == "quick" else ("NM", "TM", "MO", "MOT", "CO", "TR", "INT")
     cfgs = grid(fl, W1_NS[tier], (1,)) + grid(("NM", "INT"), (0, 2), (0,))
     jobs = w1_jobs(tier, cfgs, G_ALL, 1)
-    jobs += w2_jobs(tier, ("NM", "TM"), W2_PAIRS[tier], (0, 7, 15), 1)
+    jobs += w2_jobs(tier, ("NM", "TM"), W2_PAIRS[tier], tuple(range(8)) + (15,), 1)
     # assert-enabled builds: the header's own asserts (capacity >= inline capacity, size <= capacity,
     # allocation larger than the inline capacity) restate C02; an abort is attributed to it
     for (f, n) in ((("TM", 2), ("NM", 0), ("MO", 3)) if tier == "quick" else (("TM", 2), ("NM", 0), ("MO", 3), ("CO", 1), ("TR", 2), ("NM", 5))):
@@ -320,7 +320,8 @@ def plan_C03(prop, tier):
     # pairs of injected exceptions (the second one inside roll-back code) for the throwing-move flavour
     jobs += [Job(j.label + "-dbl", j.binary, svmc_args(tier, G_INSERT1 | G_INSERTN | G_INSRANGE | G_ASSIGN | G_ERASE, 2))
              for j in w1_jobs(tier, grid(("TM",), (2, 0) if tier == "quick" else (0, 2, 3), (1,)), G_ALL, 1)]
-    jobs += w2_jobs(tier, ("NM", "TM", "MO"), W2_PAIRS[tier], (0, 7), 1)
+    jobs += w2_jobs(tier, ("NM", "TM"), W2_PAIRS[tier], tuple(range(8)) + (15,), 1)
+    jobs += w2_jobs(tier, ("MO",), W2_PAIRS[tier], (0, 7), 1)
     return run_svmc(prop, tier, jobs)
 
 
@@ -329,6 +330,9 @@ def plan_C04(prop, tier):
     cfgs = grid(fl, W1_NS[tier], (1,)) + grid(("NM", "INT"), W1_NS[tier], (0,))
     jobs = w1_jobs(tier, cfgs, G_ALL, 1)
     jobs += w2_jobs(tier, ("NM",), W2_PAIRS[tier], W2_ACFGS[tier], 1)
+    # throwing-move flavour over every propagation combination with distinguishable allocators:
+    # the roll-back paths of assignment / swap between unequal allocators give blocks back too
+    jobs += w2_jobs(tier, ("TM",), W2_PAIRS[tier], tuple(range(8)) if tier == "quick" else tuple(range(16)), 1)
     return run_svmc(prop, tier, jobs)
 
 
@@ -349,7 +353,8 @@ def plan_C06(prop, tier):
     # second (post-fault) witness per shape: the whole alphabet is applied again from a state that
     # was reached through a thrown exception, and must behave like the first witness
     jobs = w1_jobs(tier, cfgs, G_ALL, 2, witnesses=2)
-    jobs += w2_jobs(tier, ("NM", "TM", "MO"), W2_PAIRS[tier], (0, 2, 7), 2)
+    jobs += w2_jobs(tier, ("NM", "TM"), W2_PAIRS[tier], tuple(range(8)) + (15,), 2)
+    jobs += w2_jobs(tier, ("MO",), W2_PAIRS[tier], (0, 2, 7), 2)
     return run_svmc(prop, tier, jobs)
 
 
